@@ -79,7 +79,14 @@ NumSeq(ts, n) ==
   IF ts = <<>> THEN <<<<>>, n>>
   ELSE LET a == Num(Head(ts), n) b == NumSeq(Tail(ts), a[2]) IN <<<<a[1]>> \o b[1], b[2]>>
 
-Cases == {Wrap(Tree2(d)) : d \in {e \in D2 : Valid2(e)}}
+\* a node with exactly one of its slots filled (guards that make one slot depend on another show up here)
+Solo(P, i) == [k |-> P, ch |-> [j \in 1..Len(Schema[P]) |->
+                 IF j = i THEN Min(P, 1).ch[j]
+                 ELSE IF P = "Select" /\ Schema[P][j].name \in {"targets", "from_table"} THEN Min(P, 1).ch[j]
+                 ELSE <<Schema[P][j].name, <<>>>>]]
+Solos == UNION {{Wrap(Solo(P, i)) : i \in 1..Len(Schema[P])} : P \in Kinds}
+
+Cases == {Wrap(Tree2(d)) : d \in {e \in D2 : Valid2(e)}} \cup Solos
          \cup (IF Depth >= 3 THEN {Wrap(Tree3(e)) : e \in {f \in D3 : Valid3(f)}} ELSE {})
 
 Init == c \in Cases
